@@ -29,6 +29,7 @@ fn main() {
         "shapes" => drivers::shapes::run(&args),
         "sock" => drivers::sock::run(&args),
         "putq" => drivers::putq::run(&args),
+        "query" => drivers::query::run(&args),
         "idmath-one" => drivers::idmath::run_one(&args),
         other => {
             eprintln!("unknown driver {other}");
